@@ -222,8 +222,31 @@ def run(ctx):
         ctx.ob("R3", "Session::commit#rdf-discard", ok_r,
                what="a path from a failed TransactionManager::commit to the return of Session::commit does not pass "
                     "RdfStore::rollback_tx: the refused transaction's triple buffer is kept", where=commit.loc(cterm["line"]))
+        # R3b: the success arm is complete: every path from an accepted commit to the return applies the RDF buffer
+        # (otherwise the transaction's node/edge changes are committed and its triple changes silently dropped) and moves
+        # the store clock to the commit epoch
+        ctx_tx = P.fn("RdfStore::commit_tx")
+        adv = P.fn("LpgStore::advance_epoch_to")
+        entries = [b for b in ok_blocks if any(p not in ok_blocks for p in commit.pred()[b])]
+        for nm, target in (("rdf-commit_tx", ctx_tx), ("advance_epoch_to", adv)):
+            callers = P.callers_closure([target.id])
+            T = {bi for (bi, t) in commit.calls() if any(x in callers for x in P.call_targets(t))}
+            ok_s = bool(entries) and all(must_pass(commit, b, T, exits) for b in entries)
+            ctx.ob("R3b", "Session::commit#success-%s" % nm, ok_s,
+                   what="a path from an accepted TransactionManager::commit to the return of Session::commit does not pass %s: "
+                        "part of the committed transaction's effects is never applied" % short_id(target.id), where=commit.loc(cterm["line"]))
     else:
         raise common.CheckerError("TransactionManager::commit is called from a closure of Session::commit; R2/R3 need the direct form")
+    # R3c: Session::rollback discards in both stores before it marks the transaction aborted, on every path
+    ab = P.fn("TransactionManager::abort")
+    A = {bi for (bi, t) in rollback.calls() if callee_name(t) == ab.id}
+    ctx.floor("R3c", len(A), 1, "call of TransactionManager::abort in Session::rollback")
+    for nm, target in (("lpg-discard", disc), ("rdf-rollback_tx", P.fn("RdfStore::rollback_tx"))):
+        callers = P.callers_closure([target.id])
+        T = {bi for (bi, t) in rollback.calls() if any(x in callers for x in P.call_targets(t))}
+        ctx.ob("R3c", "Session::rollback#%s" % nm, bool(T) and must_pass(rollback, 0, T, A),
+               what="Session::rollback can reach TransactionManager::abort without passing %s: the rolled-back transaction's changes "
+                    "in that store stay" % short_id(target.id), where=rollback.loc())
 
     # ---- R6 the RDF transaction buffer is applied in issue order
     # commit_tx replays the buffered operations; a later operation on the same triple overrides an earlier one only if
